@@ -52,6 +52,25 @@ MUTS = [
   "            if any(s.start >= n and s.stop > s.start for s, n in zip(slices, array.shape)):\n                raise IndexError(f'Chunk {chunk_name!r} lies outside array of shape {array.shape}')\n", ""),
  ('M21 DictChunkStore treats a chunk that merely touches the end of the array as outside (>= instead of >)', 'katdal/chunkstore_dict.py',
   "if any(s.start >= n and s.stop > s.start for s, n in zip(slices, array.shape)):", "if any(s.stop >= n and s.stop > s.start for s, n in zip(slices, array.shape)):"),
+ ('M22 a sliced PlaceholderChunk forgets its dtype (float64): zeros of the wrong type; shows only when the FIRST block of the selection is lost and cut by the window', CS,
+  "        return PlaceholderChunk(new_shape, self.dtype, self.name)", "        return PlaceholderChunk(new_shape, float, self.name)"),
+ ('M23 _default_zero fills with float64 zeros (dtype of the placeholder ignored)', VFW,
+  "        return np.zeros(array.shape, array.dtype)", "        return np.zeros(array.shape)"),
+ ('M24 get_dask_array names the dask array by offset and token only (arrays with identical chunks and dtype share graph keys)', CS,
+  "out_name = f'{array_name}-{offset}-{token}'", "out_name = f'{offset}-{token}'"),
+ ('M25 lost map reuses the source keys made for an earlier array with the same chunking', VFW,
+  "                src_keys[index] = (array.name,) + index\n",
+  "                src_keys[index] = (array.name,) + index\n            src_keys = self.__dict__.setdefault('_src_key_cache', {}).setdefault(array.chunks, src_keys)\n"),
+ ('M26 _upgrade_flags fills a missing prefix of the flags stream from the L0 view (legacy layout reads the L0 flags)', DS,
+  "flags_info = _ensure_prefix_is_set(flags_info, telstate_cs)", "flags_info = _ensure_prefix_is_set(flags_info, telstate)"),
+ ('M27 _ensure_prefix_is_set overwrites an explicit prefix by chunk_name', DS,
+  "        if 'prefix' not in info:\n            info['prefix'] = telstate['chunk_name']", "        info['prefix'] = telstate.get('chunk_name', info.get('prefix'))"),
+ ('M28 get_chunk_or_default builds the default chunk without the dtype (a lost flags chunk is int64)', CS,
+  "return np.full(shape, default_value, dtype)", "return np.full(shape, default_value)"),
+ ('M29 _upgrade_chunk_info keeps the prefix of the entry it replaces (flags stream read under the L0 prefix)', DS,
+  "        chunk_info[key] = improved_info\n", "        chunk_info[key] = dict(improved_info, prefix=original_info.get('prefix', improved_info.get('prefix')))\n"),
+ ('M30 get_dask_array token ignores the dtype and the name ignores the array (vis and weights with identical chunks collide)', CS,
+  "        token = da.core.tokenize(self, chunks, dtype, index)\n        out_name = f'{array_name}-{offset}-{token}'", "        token = da.core.tokenize(self, chunks, index)\n        out_name = f'data-{offset}-{token}'"),
 ]
 only = sys.argv[1:]
 res = []
